@@ -284,6 +284,52 @@ def run(ctx):
                                        'expected': want, 'got': got})
         prev = v
     res.count('via_history(set_cell_value)', hist_n)
+    # a loaded WORKBOOK WITH DEFINED NAMES some of which are spelt exactly like text literals of the formulas: a text
+    # literal denotes its text whatever names exist; the name itself (unquoted) denotes its cell
+    import os
+    import tempfile
+    import openpyxl
+    from openpyxl.workbook.defined_name import DefinedName
+    wbk = openpyxl.Workbook()
+    ws = wbk.active
+    ws.title = 'Sheet1'
+    ws['A1'] = 'interest rate 5%'
+    ws['B1'] = 1234567
+    ws['A2'] = 'Total'
+    names = {'rate': 'Sheet1!$B$1', 'Total': 'Sheet1!$A$1', 'ab': 'Sheet1!$B$1', 'x': 'Sheet1!$A$1', 'FALSE1': 'Sheet1!$B$1'}
+    for n_, target in names.items():
+        wbk.defined_names[n_] = DefinedName(n_, attr_text=target)
+    lits = ['rate', 'Rate', 'rates', 'Total', 'total', 'ab', 'x', 'FALSE1', 'y']
+    forms = []
+    for t in lits:
+        q = '"' + t + '"'
+        forms += [(f'=LEN({q})', ('LEN', (t,))), (f'=UPPER({q})', ('UPPER', (t,))), (f'=LOWER({q})', ('LOWER', (t,))),
+                  (f'={q}&"="&B1', ('CONCAT', (t, '=', 1234567))), (f'=REPLACE(A1,10,4,{q})', ('REPLACE', ('interest rate 5%', 10, 4, t))),
+                  (f'=EXACT({q},MID(A1,10,4))', ('EXACT', (t, 'rate'))), (f'=FIND({q},A1&"Total ab x FALSE1 y rates Rate total")',
+                                                                         ('FIND', (t, 'interest rate 5%Total ab x FALSE1 y rates Rate total'))),
+                  (f'=LEFT({q},2)', ('LEFT', (t, 2))), (f'=RIGHT({q},1)', ('RIGHT', (t, 1))), (f'=MID({q},2,2)', ('MID', (t, 2, 2))),
+                  (f'=CONCATENATE({q},{q})', ('CONCATENATE', (t, t))), (f'=TRIM({q}&" ")', ('TRIM', (t + ' ',)))]
+    forms += [('=LEN(rate)', ('LEN', (1234567,))), ('=UPPER(Total)', ('UPPER', ('interest rate 5%',))), ('=x&ab', ('CONCAT', ('interest rate 5%', 1234567)))]
+    for i, (f, _d) in enumerate(forms):
+        ws.cell(row=i + 1, column=4, value=f)
+    tmpd = tempfile.mkdtemp(prefix='c17_')
+    try:
+        path = os.path.join(tmpd, 'names.xlsx')
+        wbk.save(path)
+        evn = Evaluator(ModelCompiler().read_and_parse_archive(path))
+        for i, (f, (fn, args)) in enumerate(forms):
+            want = call_real(xl.FUNCTIONS[fn], *args)
+            got = call_real(evn.evaluate, f'Sheet1!D{i + 1}')
+            res.evaluations += 1
+            via_formula += 1
+            res.count('via_workbook_with_names')
+            res.nontrivial.add(('names', f))
+            if not same_value(got, want):
+                res.violations.append({'what': f'{fn} in a workbook with defined names differs from the direct call on the written texts',
+                                       'input': {'formula': f, 'defined names': names}, 'expected': want, 'got': got})
+    finally:
+        import shutil
+        shutil.rmtree(tmpd, ignore_errors=True)
     res.count('via_formula', via_formula)
     if res.drift:
         res.notes.append(f'{len(res.drift)} model/implementation differences where the code still meets Spec')
